@@ -505,7 +505,9 @@ impl RunState {
             // puts
             0x22 => {
                 // could probably rewrite with iterators but idk if worth
-                for addr in self.reg(0).. {
+                // Address wraps around the end of memory
+                for offset in 0..=u16::MAX {
+                    let addr = self.reg(0).wrapping_add(offset);
                     let chr_raw = self.mem(addr);
                     let chr_ascii = (chr_raw & 0xFF) as u8 as char;
                     if chr_ascii == '\0' {
@@ -524,7 +526,9 @@ impl RunState {
             }
             // putsp
             0x24 => {
-                'string: for addr in self.reg(0).. {
+                // Address wraps around the end of memory
+                'string: for offset in 0..=u16::MAX {
+                    let addr = self.reg(0).wrapping_add(offset);
                     let chr_raw = self.mem(addr);
                     for chr in [chr_raw >> 8, chr_raw & 0xFF] {
                         let chr_ascii = chr as u8 as char;
